@@ -534,3 +534,139 @@ Section EInv.
     eapply EInv_step; try eassumption. apply (lreachable_LInv inc out inc_nonempty Hmulti); exact Hr.
   Qed.
 End EInv.
+
+(* ------------------------------------------------------------------ *)
+(** * Promises, blocking quorums, persistence sequences *)
+
+(* once an element satisfies P, every later one does (or the escape B holds) *)
+Fixpoint seq_ok (P : list ent -> Prop) (B : Prop) (l : list (list ent)) : Prop :=
+  match l with
+  | [] => True
+  | X :: r => (P X -> forall Y, In Y r -> P Y \/ B) /\ seq_ok P B r
+  end.
+
+Lemma seq_ok_replace_last P B l0 old new :
+  seq_ok P B (l0 ++ [old]) -> (P old -> P new \/ B) -> seq_ok P B (l0 ++ [new]).
+Proof.
+  intros H Hn. induction l0 as [|X r IH]; cbn in *.
+  - split; [intros _ Y []|exact I].
+  - destruct H as [H1 H2]. split; [|apply IH; exact H2].
+    intros HX Y HY. apply in_app_iff in HY. destruct HY as [HY|[<-|[]]].
+    + apply H1; [exact HX|]. apply in_or_app. left. exact HY.
+    + destruct (H1 HX old) as [Ho|HB]; [apply in_or_app; right; left; reflexivity| |right; exact HB].
+      apply Hn. exact Ho.
+Qed.
+
+Lemma seq_ok_dup_last P B l0 x : seq_ok P B (l0 ++ [x]) -> seq_ok P B ((l0 ++ [x]) ++ [x]).
+Proof.
+  intros H. induction l0 as [|X r IH]; cbn in *.
+  - split; [intros Hx Y [<-|[]]; left; exact Hx|]. split; [intros _ Y []|exact I].
+  - destruct H as [H1 H2]. split; [|apply IH; exact H2].
+    intros HX Y HY. apply H1; [exact HX|]. apply in_app_iff in HY.
+    destruct HY as [HY|[<-|[]]]; [exact HY|]. apply in_or_app. right. left. reflexivity.
+Qed.
+
+Lemma seq_ok_ext (P P' : list ent -> Prop) (B B' : Prop) l :
+  (forall X, P X <-> P' X) -> (B -> B') -> seq_ok P B l -> seq_ok P' B' l.
+Proof.
+  intros HP HB. induction l as [|X r IH]; cbn; [auto|]. intros [H1 H2]. split; [|apply IH; exact H2].
+  intros HX Y HY. apply HP in HX. destruct (H1 HX Y HY) as [H|H]; [left; apply HP; exact H|right; auto].
+Qed.
+
+Lemma seq_ok_head_last P B X l y : seq_ok P B (X :: l ++ [y]) -> P X -> P y \/ B.
+Proof. cbn. intros [H _] HX. apply H; [exact HX|]. apply in_or_app. right. left. reflexivity. Qed.
+
+Definition Seq (s : lst) (q : N) : list (list ent) :=
+  (l_dlog (ln s q) :: l_imgs (ln s q)) ++ [l_log (ln s q)].
+
+Definition promised (s : lst) (q T : N) (k : nat) : Prop :=
+  (k <= acked s q T)%nat \/ exists i, (k <= i)%nat /\ In (T, i) (l_acks (ln s q)).
+
+Lemma promised_dec s q T k : {promised s q T k} + {~ promised s q T k}.
+Proof.
+  unfold promised. destruct (le_dec k (acked s q T)) as [H|H]; [left; auto|].
+  assert (D : {exists i, (k <= i)%nat /\ In (T, i) (l_acks (ln s q))} + {~ exists i, (k <= i)%nat /\ In (T, i) (l_acks (ln s q))}).
+  { induction (l_acks (ln s q)) as [|[t0 i0] r IH].
+    - right. intros (i & _ & []).
+    - destruct IH as [IH|IH]; [left; destruct IH as (i & Hi & Hin); exists i; split; [exact Hi|right; exact Hin]|].
+      destruct (N.eq_dec t0 T) as [->|Hne].
+      + destruct (le_dec k i0) as [Hk|Hk]; [left; exists i0; split; [exact Hk|left; reflexivity]|].
+        right. intros (i & Hi & [Hin|Hin]); [inversion Hin; subst; lia|apply IH; eauto].
+      + right. intros (i & Hi & [Hin|Hin]); [inversion Hin; subst; congruence|apply IH; eauto]. }
+  destruct D as [D|D]; [left; auto|right; tauto].
+Qed.
+
+Section Block.
+  Variables (inc out : list N).
+  Hypothesis inc_nonempty : inc <> [].
+  Hypothesis Hmulti : no_single_quorum inc out.
+  Notation lrule := (lrule inc out).
+  Notation lreachable := (lreachable inc out).
+
+  (* a quorum that has durably moved beyond T without promising (T, k): (T, k) can never be committed *)
+  Definition Block (s : lst) (T : N) (k : nat) : Prop :=
+    exists Q, quorum inc out Q = true /\
+      forall z, In z Q -> T < p_dterm (nodes (el s) z) /\ ~ promised s z T k.
+
+  (* new promises are made in the current term only *)
+  Lemma promised_step s l s' z T k : lrule l s = Some s' -> promised s' z T k ->
+    promised s z T k \/ T = p_term (nodes (el s) z).
+  Proof.
+    intros H HP. destruct l as [l0|c x|n m|q i|q t i|c k0|n k0|n|n].
+    - destruct (lel_inv _ _ _ _ _ H) as (e' & He & Hel & Hs).
+      destruct l0 as [n|n|n|n t|n c t|n t|n t|c n|c|n t|n|n|n]; try (subst s'; left; exact HP).
+      + destruct Hs as [-> _]. left. exact HP.
+      + destruct Hs as [_ ->]. left. destruct HP as [HP|(i & Hi & HP)]; [left; exact HP|right].
+        exists i. split; [exact Hi|]. cbn in HP. destruct (N.eqb_spec z c) as [->|Hne]; exact HP.
+      + subst s'. left. destruct HP as [HP|(i & Hi & HP)]; [left; exact HP|right].
+        exists i. split; [exact Hi|]. cbn in HP. destruct (N.eqb_spec z n) as [->|Hne]; [destruct HP|exact HP].
+    - apply lpropose_inv in H. destruct H as (_ & ->). left.
+      destruct HP as [HP|(i & Hi & HP)]; [left; exact HP|right].
+      exists i. split; [exact Hi|]. cbn in HP. destruct (N.eqb_spec z c) as [->|Hne]; exact HP.
+    - apply ladopt_inv in H. cbv zeta in H. destruct H as (_ & _ & _ & _ & _ & _ & ->). left.
+      destruct HP as [HP|(i & Hi & HP)]; [left; exact HP|right].
+      exists i. split; [exact Hi|]. cbn in HP. destruct (N.eqb_spec z n) as [->|Hne]; exact HP.
+    - apply lmkack_inv in H. cbv zeta in H. destruct H as (_ & _ & _ & _ & ->).
+      destruct HP as [HP|(i0 & Hi & HP)]; [left; left; exact HP|].
+      cbn in HP. destruct (N.eqb_spec z q) as [->|Hne]; [|left; right; eauto].
+      cbn in HP. destruct HP as [HP|HP]; [inversion HP; subst; right; reflexivity|left; right; eauto].
+    - apply lrelack_inv in H. destruct H as (Hin & _ & _ & ->). left.
+      destruct (acked s q t <? i)%nat; [|exact HP].
+      destruct HP as [HP|HP]; [|right; exact HP]. cbn in HP.
+      destruct ((z =? q) && (T =? t)) eqn:E; [|left; exact HP].
+      apply andb_prop in E. destruct E as [E1 E2]. apply N.eqb_eq in E1, E2. subst. right. eauto.
+    - apply lcommitl_inv in H. cbv zeta in H. destruct H as (_ & _ & _ & _ & _ & ->).
+      assert (HP1 : promised (set_ln s c (mkLN (l_log (ln s c)) (l_dlog (ln s c)) (l_imgs (ln s c)) k0 (l_acks (ln s c)))) z T k
+                    -> promised s z T k).
+      { intros [HP1|(i & Hi & HP1)]; [left; exact HP1|right]. exists i. split; [exact Hi|].
+        cbn in HP1. destruct (N.eqb_spec z c) as [->|Hne]; exact HP1. }
+      destruct (is_prefix _ _ && _)%bool; [|left; apply HP1; exact HP].
+      destruct HP as [HP|HP]; [|left; apply HP1; right; exact HP]. cbn in HP.
+      destruct ((z =? c) && (T =? p_term (nodes (el s) c))) eqn:E; [|left; left; exact HP].
+      apply andb_prop in E. destruct E as [E1 E2]. apply N.eqb_eq in E1, E2. subst. right. reflexivity.
+    - apply lcommitf_inv in H. destruct H as (_ & _ & _ & _ & ->). left.
+      destruct HP as [HP|(i & Hi & HP)]; [left; exact HP|right].
+      exists i. split; [exact Hi|]. cbn in HP. destruct (N.eqb_spec z n) as [->|Hne]; exact HP.
+    - apply llogimage_inv in H. destruct H as (_ & ->). left.
+      destruct HP as [HP|(i & Hi & HP)]; [left; exact HP|right].
+      exists i. split; [exact Hi|]. cbn in HP. destruct (N.eqb_spec z n) as [->|Hne]; exact HP.
+    - apply llogfsync_inv in H. destruct H as (img & rest & _ & _ & _ & ->). left.
+      destruct HP as [HP|(i & Hi & HP)]; [left; exact HP|right].
+      exists i. split; [exact Hi|]. cbn in HP. destruct (N.eqb_spec z n) as [->|Hne]; exact HP.
+  Qed.
+
+  Lemma lstep_dterm_mono s l s' z : lreachable s -> lrule l s = Some s' ->
+    p_dterm (nodes (el s) z) <= p_dterm (nodes (el s') z).
+  Proof.
+    intros Hr H. destruct (lstep_el _ _ _ _ _ H) as [E|(l0 & _ & Hp)]; [rewrite E; lia|].
+    eapply dterm_mono; [|exact Hp]. apply reachable_Inv. apply lreachable_el. exact Hr.
+  Qed.
+
+  Lemma Block_step s l s' T k : lreachable s -> lrule l s = Some s' -> Block s T k -> Block s' T k.
+  Proof.
+    intros Hr H (Q & HQ & HB). exists Q. split; [exact HQ|]. intros z Hz. destruct (HB z Hz) as [Hd Hnp].
+    pose proof (lstep_dterm_mono s l s' z Hr H) as Hm. split; [lia|].
+    intros HP. destruct (promised_step _ _ _ _ _ _ H HP) as [HP0|E]; [exact (Hnp HP0)|].
+    pose proof (dterm_le_term inc out (el s) z (reachable_Inv inc out _ (lreachable_el _ _ _ Hr))). lia.
+  Qed.
+End Block.
